@@ -128,3 +128,15 @@ CLAIMS["C02"] = (
     "antisymmetric, transitive, that RCPBasicKeyLess is a strict weak order with incomparability = eq, and that "
     "set_basic has the same sorted iteration order for 8 insertion permutations",
     "6/C02", TRUSTED, "TLA+ relational model of the ordering + TLC validation of recorded relation matrices")
+
+CLAIMS["C03"] = (
+    "model_checking",
+    "TLC enumerates 12 binary operations on every ordered pair, 49 unary operations on every element and 4 n-ary "
+    "operations on all pairs-with-a-third of a 66-element operand pool built around the boundary cases of the "
+    "canonicalising constructors (68 672 API calls); each result is validated by TLC against the canonical-form "
+    "predicates of module Canon (Add, Mul, Pow, exact numbers; at every depth), and hook H1 turns a failed "
+    "SYMENGINE_ASSERT inside the library into a recorded exception that no event may carry; the same monitor "
+    "runs in every Trace_Val check",
+    "6/C03", TRUSTED + "; the predicates cover Add/Mul/Pow/number classes structurally, other classes through the "
+    "library's own assertions (hook H1) only",
+    "TLA+ canonical-form predicates + assertion hook + TLC trace validation")
